@@ -1886,4 +1886,46 @@ theorem restart_delivers {c : Cfg} (σ : St) (order : List Nat) (s r : Nat) (j :
   cases b <;> exact ⟨new, h1, h2⟩
 
 
+
+/-! ## Run looks at the shelf again for every job of its snapshot -/
+
+theorem entriesAfter_not_call_of_other (s r r0 : Nat) (j : Job) (o : Outcome) (h : r0 ≠ r) :
+    ∀ e, e ∈ entriesAfter s r0 j o → e.isCallOf s r = false := by
+  intro e he
+  cases o <;> simp [entriesAfter] at he <;>
+    first
+      | (subst he; simp [Entry.isCallOf, h])
+      | (rcases he with he | he <;> subst he <;> simp [Entry.isCallOf, h])
+
+/-- whatever snapshot `l` Run took: a job that is no longer on the shelf when the loop runs (its completion was
+    recorded in the meantime) is not delivered, and stays gone -/
+theorem runCalls_no_call_of_absent {c : Cfg} (s r : Nat) (l : List (Nat × Nat)) : ∀ (σ : St) (acc : List (Nat × Nat)),
+    σ.shelf s r = none →
+    ∃ new, (runCalls c s l σ acc).1.ledger = new ++ σ.ledger ∧ (∀ e, e ∈ new → e.isCallOf s r = false) ∧
+      (runCalls c s l σ acc).1.shelf s r = none := by
+  induction l with
+  | nil => intro σ acc h; exact ⟨[], rfl, fun e he => (by cases he), h⟩
+  | cons p rest ih =>
+    intro σ acc h
+    obtain ⟨r0, ret0⟩ := p
+    cases hj : σ.shelf s r0 with
+    | none => rw [runCalls_cons_none hj]; exact ih σ acc h
+    | some j =>
+      have hne : r0 ≠ r := by intro e; subst e; rw [h] at hj; cases hj
+      by_cases ho : c.beh s r0 (attemptNo σ s r0) = .crash
+      · rw [runCalls_cons_crash hj ho]
+        refine ⟨[_], rfl, ?_, h⟩
+        intro e he
+        simp only [List.mem_singleton] at he
+        subst he; simp [Entry.isCallOf, hne]
+      · obtain ⟨acc', e⟩ := runCalls_cons_go (ret0 := ret0) (rest := rest) (acc := acc) hj ho
+        rw [e]
+        obtain ⟨new, h1, h2, h3⟩ := ih (setJob (logAfter σ s r0 j (c.beh s r0 (attemptNo σ s r0))) s r0
+          (jobAfter c j (c.beh s r0 (attemptNo σ s r0)))) acc' (by simp [Ne.symm hne, h])
+        refine ⟨new ++ entriesAfter s r0 j (c.beh s r0 (attemptNo σ s r0)), by rw [h1]; simp, ?_, h3⟩
+        intro e he
+        rcases List.mem_append.mp he with he | he
+        · exact h2 e he
+        · exact entriesAfter_not_call_of_other s r r0 j _ hne e he
+
 end Nuts.C14
